@@ -203,3 +203,31 @@ def run(ctx):
                     m.rel,
                     n.lineno,
                 )
+
+    # ---- C28.5 -----------------------------------------------------------
+    # "stops early => a real run executes at least one task": every way in which the hand-off fails a job *without* running its task must be
+    # taken by the dry run as well, otherwise the dry run parks the job as `would run` while the real run only raises.
+    r5 = ctx.rule("C28.5", "pre-submission rejections in the hand-off are not skipped by the dry-run exit", floor=2)
+    from ..cfg import facts_at as _facts
+
+    rej = [c for c in calls_in(ex) if call_name(c) == "self.reject_job" and m.enclosing_func(c) is ex]
+    if len(rej) < 2:
+        raise AnalysisError(f"{lc.EXEC}: expected >= 2 reject_job sites, found {len(rej)}", lc.EXEC)
+    for c in rej:
+        node = cfg.node_of(c)
+        facts = _facts(cfg, node)
+        in_handler = False
+        p = m.parent.get(c)
+        while p is not None and p is not ex:
+            if isinstance(p, ast.ExceptHandler):
+                in_handler = True
+            p = m.parent.get(p)
+        only_real = ("self._dryrun", False) in facts and not in_handler
+        r5.check(
+            not only_real,
+            f"{m.rel}:{lc.EXEC}:reject-only-on-real-run:{src(c.args[1])[:40] if len(c.args) > 1 else c.lineno}",
+            f"`{src(c)[:90]}` (line {c.lineno}) is reached only when self._dryrun is false: a job that the real run fails before calling any task (e.g. unknown executor) is left pending by the "
+            "dry run, which then reports that additional jobs would run although a real run on this backend executes nothing",
+            m.rel,
+            c.lineno,
+        )
